@@ -54,6 +54,10 @@ def _style_dict(meta):
         d = {}
         for k in draw(st.lists(st.sampled_from(keys), min_size=0, max_size=4, unique=True)):
             d[k] = True if k in ("italics", "bold", "underline") else draw(vals)
+        if draw(st.integers(0, 9)) == 0:
+            # the 'region' key LegacyDFXPWriter understands (a region id - the exported default
+            # id, a generated one, or one that does not exist)
+            d["region"] = draw(st.sampled_from(["bottom", "bottom", "r0", "r1", "nosuch"]))
         return d
     return build()
 
